@@ -18,6 +18,13 @@ CHECKS = {
    note="Scheduling points only at synchronisation operations (sound for data-race-free code; races are the -race pass's job, which is a dynamic analysis of the runs it sees). Virtual clock. 2 clients x 3 timestamps x 2 services alphabet. Trusts the Go runtime and the shim's model of sync.RWMutex (writer preference).",
    technique="stateless model checking of thread interleavings (preemption-bounded DFS under a controlled scheduler) + explicit-state BFS over operation histories on the real code",
    engine="sched+bfs"),
+ "C03": dict(
+   category="model_checking",
+   text="The real spnego.SPNEGOKRB5Authenticate wrapper is driven through httptest with Authorization headers built from reference-minted tokens: inner tokens (valid AP-REQ for each etype, every judged defect of the C01 catalogue, KRB-ERROR with three msg-types, AP-REP, wrong and unknown TOK_IDs, none, garbage) x framings (GSS-framed and bare NegTokenInit with 7 mechanism lists incl. empty and foreign, NegTokenResp with 4 states x 3 mechanisms, raw KRB5 token) and 12 header shapes; every prefix and every single-byte substitution (255 values) of three valid tokens (about 600k requests in fault-isolating workers); every request sequence of length <=4 over {fresh valid token, replayed token, no header, garbage, session cookie, forged cookie} x {no session manager, in-memory, failing New, failing Get}. The inner handler may run only for a header that carries the minted ticket and authenticator ciphertexts of an acceptable request unmodified (or a cookie issued after one) with the minted identity in the context; everything else must be 401 + WWW-Authenticate: Negotiate (5xx only when the session store fails); the same tokens are offered to AcceptSecContext / the Verify chain, which must not report success without an accepted AP-REQ.",
+   design="DESIGN.md 2/C03",
+   note="Acceptance is judged semantically (a mutated header still carrying both ciphertexts intact may be served). The positive direction is demanded only for the standard framings (GSS-framed NegTokenInit with krb5 first, raw KRB5 token). Virtual clock; replay cache reset per stateless case.",
+   technique="bounded-exhaustive enumeration (catalogue product, single-deviation neighbourhoods of valid tokens, BFS over request sequences) on the real handler against a reference predicate",
+   engine="enum+guard+bfs"),
  "C05": dict(
    category="model_checking",
    text="Complete enumeration of the product etype(6) x plaintext length 0..130 x every key usage gokrb5 names plus boundary usages (127,128,255,256,1024,2^31) x 2-3 keys, in both directions, against an independent RFC implementation (ref/rcrypto, validated against the RFC appendix vectors on every run): what gokrb5 encrypts the reference decrypts and vice versa; the confounder recovered by the reference must be exactly the bytes drawn from the (recorded) CSPRNG and differ between two encryptions. Thorough tier: OpenJDK's Kerberos crypto decrypts every cell too.",
